@@ -104,7 +104,7 @@ def stable_solve(A, B):
         A = A.reshape(working_shape_A)
         B = B.reshape(working_shape_B)
 
-        C = np.zeros_like(B)
+        C = np.zeros(B.shape, dtype=np.result_type(A, B))
         for i in range(working_shape_A[0]):
             # lstsq is much slower, use it only when necessary
             try:
